@@ -73,7 +73,7 @@ def edfa(uid, variety=None, operational=None):
     return d
 
 
-def mesh(sites, links, spans=None, junction='none', span_km=80, roadm_params=None, amp_variety=None):
+def mesh(sites, links, spans=None, junction='none', span_km=80, roadm_params=None, amp_variety=None, passive_links=()):
     """topology JSON: sites = ['A','B',..] (one ROADM + one transceiver each); links = [('A','B'), ..] undirected,
     each built as two directed lines of `spans` fibre spans (list of km) joined by `junction` elements."""
     els, cons = [], []
@@ -84,6 +84,12 @@ def mesh(sites, links, spans=None, junction='none', span_km=80, roadm_params=Non
         for x, y in ((a, b), (b, a)):
             sp = (spans or {}).get((a, b), (spans or {}).get((b, a), [span_km]))
             prev = f'roadm {x}'
+            if (a, b) in passive_links or (b, a) in passive_links:
+                # an unamplified line: roadm -> fused -> fibre -> fused -> roadm (auto-design adds no amplifier next to a Fused)
+                names = [f'fused out ({x} -> {y})', f'fiber ({x} -> {y})-0', f'fused in ({x} -> {y})']
+                els += [fused(names[0], 0.5), fiber(names[1], sp[0]), fused(names[2], 0.5)]
+                cons += [(prev, names[0]), (names[0], names[1]), (names[1], names[2]), (names[2], f'roadm {y}')]
+                continue
             for k, km in enumerate(sp):
                 fu = f'fiber ({x} -> {y})-{k}'
                 els.append(fiber(fu, km))
